@@ -14,7 +14,7 @@
 #include "aes_encryptor.h"
 #include "hmac_encryptor.h"
 
-static time_t g_now=1000000; extern "C" time_t time(time_t *t){ if(t) *t=g_now; return g_now; }
+static time_t g_T0=1000000; /* base of the virtual clock; the epoch2039 sub-pass sets it beyond 2^31 */ static time_t g_now=1000000; extern "C" time_t time(time_t *t){ if(t) *t=g_now; return g_now; }
 using namespace cppcms;
 
 struct Jar : public session_interface_cookie_adapter { std::string value; int cleared; int sets; Jar():cleared(0),sets(0){}
@@ -52,7 +52,7 @@ static void try_cipher(World &w,const std::string &cipher,const std::string &how
 	else { if(it!=w.issued_plain.end()) bad("decrypt:valid-rejected:"+w.cfg->label,"decrypt rejects a cipher text produced by encrypt",how); n_reject++; } }
 
 static std::string payload(size_t n,int v){ std::string s(n,0); for(size_t i=0;i<n;i++) s[i]=(char)((i*29+v*101+3)&0xff); return s; }
-static void run_config(const Cfg &cfg,const std::vector<Cfg> &all,session_pool &pool,bool th){ World w; w.cfg=&cfg; w.pool=&pool; w.fac=cfg.make(cfg); w.cookies.reset(new sessions::session_cookies(w.fac->get())); w.enc=w.fac->get(); g_now=1000000;
+static void run_config(const Cfg &cfg,const std::vector<Cfg> &all,session_pool &pool,bool th){ World w; w.cfg=&cfg; w.pool=&pool; w.fac=cfg.make(cfg); w.cookies.reset(new sessions::session_cookies(w.fac->get())); w.enc=w.fac->get(); g_now=g_T0;
 	size_t lens_q[]={0,1,7,8,15,16,17,31,32,33}; size_t lens_t[]={0,1,7,8,15,16,17,31,32,33,100,255,1000,4096}; size_t *lens=th?lens_t:lens_q; size_t nl=th?(vf::thorough()?14:12):10; std::vector<std::string> valid; // cookie texts
 	// issue cookies: for each payload length: two cookies with equal payload (+1 different), expiry now+100
 	for(size_t li=0;li<nl;li++) for(int v=0;v<3;v++){ std::string d=payload(lens[li],v==2?1:0); Jar jar; session_interface si(pool,jar); w.cookies->save(si,d,g_now+100,false,false); std::string c=si.temp_cookie_; if(c.size()<2||c[0]!='C'){ bad("save:shape:"+cfg.label,"saved cookie does not start with C","len="+std::to_string(lens[li])); continue; }
@@ -119,9 +119,12 @@ static void config_refusals(){ // keys shorter than 16 bytes and encryption with
 
 int main(int argc,char **argv){ vf::init(argc,argv,"C05","fault_enumeration"); bool th=true; bool big=vf::thorough(); std::vector<Cfg> cfgs=configs(th); (void)big;
 	vf::C().rule="per key configuration: 13 key configurations (hmac-md5/sha1/sha224/sha256/sha384/sha512 with key lengths 16..129, aes128/192/256 with derived, combined and split keys); 3 cookies for each of 12 payload lengths 0..255 (thorough: + 1000, 4096) + an expiry grid {now-1, now, now+1} under a virtual clock; for the cookies: every single-bit flip of the decoded cipher text, every truncation, head cuts, extensions/prefixes by 1..17 bytes of 00/ff, every 16-byte block copy/swap/duplication, every single-character substitution of the cookie text by 69 characters, every single-character deletion, insertion of 4 characters at every (3rd) position, appending 1..6 characters, 'C'+n characters for n = 1..40, byte-granular splices with other valid cookies, transplants from every other configuration and from the same algorithm under another key, specials; the same at encryptor::decrypt level; for the AES configurations every sequence of <= 5 (6) operations {encrypt(p1), encrypt(p2), decrypt(valid x0), decrypt(valid x1), decrypt(damaged)} on one encryptor: first cipher blocks pairwise distinct over all encrypt calls of all sequences, round trip, decrypt verdicts independent of history. distinct = key configurations (each a different code path: digest, key derivation, split keys); all non-trivial";
-	vf::assume("'decodes to' is defined by b64url::decode (whose exactness is C15's subject): text differing only in unused trailing bits or in characters the decoder maps to the same sextet is the same cipher text"); vf::assume("secrecy is a cryptographic claim enumeration cannot decide: only necessary conditions are checked (a fresh first cipher block for every encrypt call over all operation sequences on an encryptor, equal lengths for equal payload lengths, no 4-byte plaintext window in the cipher text)"); vf::assume("at expiry == now either verdict is accepted");
+	vf::assume("'decodes to' is defined by b64url::decode (whose exactness is C15's subject): text differing only in unused trailing bits or in characters the decoder maps to the same sextet is the same cipher text"); vf::assume("secrecy is a cryptographic claim enumeration cannot decide: only necessary conditions are checked (a fresh first cipher block for every encrypt call over all operation sequences on an encryptor, equal lengths for equal payload lengths, no 4-byte plaintext window in the cipher text)"); vf::assume("at expiry == now either verdict is accepted"); vf::assume("a sub-pass repeats four configurations (reduced tamper set) with the clock in 2039 (time_t beyond 2^31)");
 	if(!vf::C().replay_file.empty()) printf("replay: C05 cases are deterministic functions of the configuration (entropy only affects AES IVs); re-running the quick tier reproduces them\n");
+	if(vf::C().pass=="epoch2039"){ // four configurations again with the clock beyond 2^31 seconds (year 2039): the expiry travels inside the cookie
+		g_T0=(time_t)2200000000LL; vf::parallel(4,4,[&](int i){ json::value s; s["session"]["location"]="client"; s["session"]["client"]["encryptor"]="hmac"; s["session"]["client"]["key"]=hexkey(20,9); session_pool pool(s); pool.init(); run_config(cfgs[i],cfgs,pool,false); vf::guard("epoch2039_configs"); },600); return vf::finish(); }
 	vf::parallel(cfgs.size()+1,16,[&](int i){ if(i==(int)cfgs.size()){ config_refusals(); return; } json::value s; s["session"]["location"]="client"; s["session"]["client"]["encryptor"]="hmac"; s["session"]["client"]["key"]=hexkey(20,9); session_pool pool(s); pool.init(); run_config(cfgs[i],cfgs,pool,th); if(cfgs[i].aes) encryptor_sequences(cfgs[i],vf::thorough()?6:5); },th?1500:250);
-	vf::require_guard("roundtrips"); vf::require_guard("bitflips"); vf::require_guard("splices"); vf::require_guard("block_ops"); vf::require_guard("char_substitutions"); vf::require_guard("char_deletions"); vf::require_guard("char_insertions"); vf::require_guard("text_extensions"); vf::require_guard("text_length_classes"); vf::require_guard("transplants"); vf::require_guard("secrecy_checks"); vf::require_guard("encryptor_sequences"); vf::require_guard("encryptor_sequence_encrypts"); vf::require_guard("config_refusals"); vf::require_guard("accepted"); vf::require_guard("rejected");
+	vf::run_sub("asan","epoch2039");
+	vf::require_guard("roundtrips"); vf::require_guard("epoch2039_configs"); vf::require_guard("bitflips"); vf::require_guard("splices"); vf::require_guard("block_ops"); vf::require_guard("char_substitutions"); vf::require_guard("char_deletions"); vf::require_guard("char_insertions"); vf::require_guard("text_extensions"); vf::require_guard("text_length_classes"); vf::require_guard("transplants"); vf::require_guard("secrecy_checks"); vf::require_guard("encryptor_sequences"); vf::require_guard("encryptor_sequence_encrypts"); vf::require_guard("config_refusals"); vf::require_guard("accepted"); vf::require_guard("rejected");
 	// distinct_nontrivial needs >=2: each configuration is one
 	return vf::finish(); }
